@@ -13,6 +13,7 @@ package main
 import (
 	"bufio"
 	"fmt"
+	"io"
 	"math/rand/v2"
 	"os"
 	"regexp"
@@ -23,6 +24,8 @@ import (
 	"verifharness/hx"
 	"verifharness/hxgram"
 )
+
+var allEntryPoints bool
 
 var langs = []syntax.LangVariant{syntax.LangBash, syntax.LangPOSIX, syntax.LangMirBSDKorn, syntax.LangBats, syntax.LangZsh}
 
@@ -38,9 +41,73 @@ type perr struct {
 }
 
 func parse(src string, lang syntax.LangVariant) (e perr) {
+	return parseVia(lang, func(p *syntax.Parser) error {
+		_, err := p.Parse(strings.NewReader(src), "")
+		return err
+	})
+}
+
+// pauseReader returns (0, nil) once when it reaches the split point, as the io.Reader contract allows.
+type pauseReader struct {
+	data   string
+	pos    int
+	split  int
+	paused bool
+}
+
+func (r *pauseReader) Read(b []byte) (int, error) {
+	if r.pos == r.split && !r.paused {
+		r.paused = true
+		return 0, nil
+	}
+	if r.pos >= len(r.data) {
+		return 0, io.EOF
+	}
+	end := len(r.data)
+	if r.pos < r.split {
+		end = r.split
+	}
+	n := copy(b, r.data[r.pos:end])
+	r.pos += n
+	return n, nil
+}
+
+// entry points other than Parse(r, ""): their first error must carry the same verdict
+func parseNamed(src string, lang syntax.LangVariant) perr {
+	return parseVia(lang, func(p *syntax.Parser) error {
+		_, err := p.Parse(strings.NewReader(src), "script.sh")
+		return err
+	})
+}
+
+func parseStmtsSeq(src string, lang syntax.LangVariant) perr {
+	return parseVia(lang, func(p *syntax.Parser) error {
+		var first error
+		for _, err := range p.StmtsSeq(strings.NewReader(src)) {
+			if err != nil && first == nil {
+				first = err
+			}
+		}
+		return first
+	})
+}
+
+func parseInteractive(src string, lang syntax.LangVariant) perr {
+	return parseVia(lang, func(p *syntax.Parser) error {
+		var first error
+		for _, err := range p.InteractiveSeq(strings.NewReader(src)) {
+			if err != nil && first == nil {
+				first = err
+			}
+		}
+		return first
+	})
+}
+
+func parseVia(lang syntax.LangVariant, f func(*syntax.Parser) error) (e perr) {
 	var err error
 	if p, pm := hx.Try(func() {
-		_, err = syntax.NewParser(syntax.Variant(lang)).Parse(strings.NewReader(src), "")
+		err = f(syntax.NewParser(syntax.Variant(lang)))
 	}); p {
 		return perr{Pnc: true, Msg: "PANIC: " + pm}
 	}
@@ -95,6 +162,8 @@ type counters struct {
 	Parses     int `json:"parses"`
 	PosErrs    int `json:"errors_checked"`
 	PosBad     int `json:"pos_bad"`
+	EntryBad   int `json:"entry_point_bad"`
+	Paused     int `json:"paused_reader_parses"`
 }
 
 func checkPrefixes(src, origin string, c *counters, emit func(fail)) {
@@ -130,6 +199,23 @@ func checkPrefixes(src, origin string, c *counters, emit func(fail)) {
 			}
 			if !e.Ok {
 				checkPos(q, lang, e, origin, c, emit)
+			}
+			// the same prefix through the other entry points: Parse with a file name, StmtsSeq, InteractiveSeq
+			// (every cut of the witnesses and fixed enumerations; every 4th cut elsewhere; thorough: all)
+			if !allEntryPoints && origin != "witness" && origin != "enum-hdoc-line" && c.Cuts%4 != 0 {
+				continue
+			}
+			for _, alt := range []struct {
+				name string
+				res  perr
+			}{{"Parse(r, \"script.sh\")", parseNamed(q, lang)}, {"StmtsSeq", parseStmtsSeq(q, lang)}, {"InteractiveSeq", parseInteractive(q, lang)}} {
+				c.Parses++
+				a := alt.res
+				if a.Ok != e.Ok || a.Inc != e.Inc || (!a.Ok && (a.Offs != e.Offs || a.Line != e.Line || a.Col != e.Col)) {
+					c.EntryBad++
+					emit(fail{Clause: "entry_point_verdict_differs", Src: q, Whole: src, Lang: lang.String(), Err: a.Msg,
+						Detail: fmt.Sprintf("%s: ok=%v incomplete=%v pos=%d:%d vs Parse(r, \"\"): ok=%v incomplete=%v pos=%d:%d (%s)", alt.name, a.Ok, a.Inc, a.Line, a.Col, e.Ok, e.Inc, e.Line, e.Col, e.Msg), Origin: origin})
+				}
 			}
 		}
 	}
@@ -550,46 +636,6 @@ func genProgram(r *rand.Rand) string {
 	return b.sb.String()
 }
 
-// ---------------------------------------------------------------- fixed enumeration: here-document opener sharing its line
-
-// hdocLinePrograms enumerates (opener flavour x following construct x joiner): a command with a here-document
-// opener whose line continues, after the joiner, with a later construct of every kind; then the body lines, the
-// delimiter, the body of a second here-document where the construct opens one, and a trailing command. Every
-// line-boundary prefix of each (cut after the opener line and after each body line) must parse or be incomplete.
-func hdocLinePrograms() []string {
-	type opener struct{ op, delim, tab string }
-	openers := []opener{
-		{"<<EOF", "EOF", ""}, {"<<-EOF", "EOF", "\t"}, {"<<'EOF'", "EOF", ""}, {"<<\"EOF\"", "EOF", ""}, {"<<\\EOF", "EOF", ""}, {"<<-'EOF'", "EOF", "\t"},
-	}
-	type constr struct{ src, extra string } // extra = lines needed after the first body (e.g. a second here-document)
-	constructs := []constr{
-		{"(grep body)", ""}, {"( grep body; x )", ""}, {"{ grep body; }", ""}, {"grep $(echo body)", ""}, {"grep `echo body`", ""},
-		{"[[ a == b ]]", ""}, {"(( 1 + 2 ))", ""}, {"f() { grep body; }", ""}, {"f() ( grep body )", ""}, {"function g { x; }", ""},
-		{"tr a b <<E2", "second\nE2\n"}, {"tr a b <<-'E2'", "\tsecond\n\tE2\n"}, {"(tr a b <<E2)", "second\nE2\n"},
-		{"if a; then b; fi", ""}, {"while a; do b; done", ""}, {"for i in 1 2; do b; done", ""}, {"case x in a) b ;; esac", ""},
-		{"! grep body", ""}, {"x=1 grep body", ""}, {"grep \"$(echo body)\"", ""}, {"grep ${x:-body}", ""}, {"grep $((1+2))", ""},
-		{"arr=(1 2)", ""}, {"declare y=1", ""}, {"let 1", ""}, {"echo 'q' \"d\"", ""}, {"( (a) )", ""}, {"{ (a); }", ""}, {"(a) >f", ""}, {"( a ) 2>&1 | b", ""},
-		{"$( (a) )", ""}, {"time (a)", ""}, {"coproc (a)", ""}, {"(a) && (b)", ""}, {"select i in 1; do b; done", ""}, {"until a; do b; done", ""},
-	}
-	joiners := []string{" | ", " && ", " || ", "; ", " & ", " |& ", " |\n"}
-	var out []string
-	for _, o := range openers {
-		for _, c := range constructs {
-			for _, j := range joiners {
-				var sb strings.Builder
-				sb.WriteString("cat " + o.op + j + c.src + "\n")
-				sb.WriteString(o.tab + "body $x\n" + o.tab + "( more `y`\n" + o.tab + o.delim + "\n")
-				sb.WriteString(c.extra)
-				sb.WriteString("echo after\n")
-				out = append(out, sb.String())
-				// the construct first, the opener later on the line
-				out = append(out, c.src+j+"cat "+o.op+"\n"+c.extra+o.tab+"body\n"+o.tab+o.delim+"\necho after\n")
-			}
-		}
-	}
-	return out
-}
-
 // ---------------------------------------------------------------- inputs
 
 func corpus(repo string) []string {
@@ -634,6 +680,7 @@ func main() {
 		classes[f.Clause+"/"+f.Class]++
 		emit(f)
 	}
+	allEntryPoints = o.Tier == "thorough"
 	switch o.Mode {
 	case "core":
 		// code-leg data for coq/Syntax/CoreGrammar.v: core token programs, their cuts and mutations
@@ -650,7 +697,7 @@ func main() {
 		for _, s := range corpus(repo) {
 			checkPrefixes(s, "corpus", &c, emitC)
 		}
-		for _, s := range hdocLinePrograms() {
+		for _, s := range hxgram.HdocPrograms(false) {
 			checkPrefixes(s, "enum-hdoc-line", &c, emitC)
 		}
 		r := hx.Rand(o.Seed, 10)
@@ -670,8 +717,39 @@ func main() {
 				checkPos(s, lang, parse(s, lang), "corpus", &c, emitC)
 			}
 		}
-		// every byte prefix of every corpus item (thorough) or of a seeded slice of it (quick)
 		r := hx.Rand(o.Seed, 1011)
+		// readers that return (0, nil) once at a split point: same error, same position, inside the input
+		for _, s := range cs {
+			for _, lang := range langs {
+				base := parse(s, lang)
+				if base.Ok || base.Pnc {
+					continue
+				}
+				var splits []int
+				if len(s) <= 48 || o.Tier == "thorough" {
+					for k := 0; k <= len(s); k++ {
+						splits = append(splits, k)
+					}
+				} else {
+					splits = []int{r.IntN(len(s) + 1), r.IntN(len(s) + 1), int(base.Offs) % (len(s) + 1)}
+				}
+				for _, k := range splits {
+					c.Parses++
+					c.Paused++
+					pe := parseVia(lang, func(p *syntax.Parser) error {
+						_, err := p.Parse(&pauseReader{data: s, split: k}, "")
+						return err
+					})
+					checkPos(s, lang, pe, "paused-reader", &c, emitC)
+					if pe.Ok != base.Ok || pe.Msg != base.Msg || pe.Offs != base.Offs || pe.Inc != base.Inc {
+						c.PosBad++
+						emitC(fail{Clause: "error_differs_under_pausing_reader", Src: s, Lang: lang.String(), Err: pe.Msg,
+							Detail: fmt.Sprintf("reader returning (0,nil) once at byte %d: offset %d incomplete=%v; strings.Reader: %s offset %d incomplete=%v", k, pe.Offs, pe.Inc, base.Msg, base.Offs, base.Inc), Origin: "paused-reader"})
+					}
+				}
+			}
+		}
+		// every byte prefix of every corpus item (thorough) or of a seeded slice of it (quick)
 		step := 1
 		if o.Tier != "thorough" {
 			step = 8
